@@ -224,6 +224,16 @@ func (s *TO0Server) acceptOwner(ctx context.Context, msg io.Reader) (*to0AcceptO
 	}
 
 	// Verify to0d hash matches to0d
+	if sig.To1d.Payload == nil {
+		captureErr(ctx, protocol.InvalidMessageErrCode, "")
+		return nil, fmt.Errorf("to1d has no payload")
+	}
+	switch sig.To1d.Payload.Val.To0dHash.Algorithm {
+	case protocol.Sha256Hash, protocol.Sha384Hash:
+	default:
+		captureErr(ctx, protocol.InvalidMessageErrCode, "")
+		return nil, fmt.Errorf("unsupported hash algorithm for to0d hash: %d", int64(sig.To1d.Payload.Val.To0dHash.Algorithm))
+	}
 	to0dHash := sig.To1d.Payload.Val.To0dHash.Algorithm.HashFunc().New()
 	if err := cbor.NewEncoder(to0dHash).Encode(sig.To0d.Val); err != nil {
 		return nil, fmt.Errorf("error hashing to0d structure: %w", err)
@@ -245,6 +255,21 @@ func (s *TO0Server) acceptOwner(ctx context.Context, msg io.Reader) (*to0AcceptO
 	}
 
 	// Check owner sign nonce in to0d
+	// The redirect must be signed by the current owner of the voucher:
+	// anybody may hold a copy of the voucher itself
+	ownerPub, err := ov.OwnerPublicKey()
+	if err != nil {
+		captureErr(ctx, protocol.InvalidMessageErrCode, "")
+		return nil, fmt.Errorf("error parsing owner public key of voucher: %w", err)
+	}
+	if ok, err := sig.To1d.Verify(ownerPub, nil, nil); err != nil {
+		captureErr(ctx, protocol.InvalidMessageErrCode, "")
+		return nil, fmt.Errorf("error verifying to1d signature: %w", err)
+	} else if !ok {
+		captureErr(ctx, protocol.InvalidMessageErrCode, "")
+		return nil, fmt.Errorf("%w: to1d was not signed by the voucher's owner key", ErrCryptoVerifyFailed)
+	}
+
 	signNonce, err := s.Session.TO0SignNonce(ctx)
 	if err != nil {
 		return nil, fmt.Errorf("error getting TO0 owner sign nonce: %w", err)
